@@ -5,8 +5,7 @@ package main
 // JSON-RPC side of C02: the real handleGetBlock / handleGetTransaction / handleGetBlockTime over the
 // archive model of c02_model.go. Additional cuts (all listed in the registry):
 //
-//   - parseGetBlockRequest / parseGetTransactionRequest (renamed): the decoded request with the
-//     parser's defaults (request parsing: C08); the slot / signature stays symbolic.
+//   - request models and reply recorders: c02_jsonreq.go.
 //   - bin.UnmarshalBin and solanatxmetaparsers.ParseAnyTransactionStatusMeta inside the real
 //     parseTransactionAndMetaFromNode (rewritten call sites): the decoded transaction carries the
 //     signature of the loaded wire bytes and remembers the message bytes; the decoded metadata is
@@ -14,8 +13,6 @@ package main
 //   - encodeTransactionResponseBasedOnWantedEncoding (renamed): a token holding the encoding, the
 //     transaction it was given and the metadata it was given (base58/base64/zstd/JSON encoders are
 //     library code).
-//   - (*requestContext).Reply / ReplyRaw (renamed): recorders of the result value (jsoniter, fasthttp).
-//   - (*fasthttp.ResponseHeader).Set: no-op (engine redirect).
 
 import (
 	"bytes"
@@ -24,41 +21,9 @@ import (
 	"errors"
 
 	"github.com/gagliardetto/solana-go"
-	"github.com/gagliardetto/solana-go/rpc"
 	"github.com/sourcegraph/jsonrpc2"
 	"github.com/valyala/fasthttp"
 )
-
-// --- request models -----------------------------------------------------------------------------
-
-var verifC02Req struct {
-	slot     uint64
-	sig      solana.Signature
-	encoding solana.EncodingType
-	rewards  bool
-}
-
-var verifC02Encodings = []solana.EncodingType{solana.EncodingJSON, solana.EncodingBase58, solana.EncodingBase64, solana.EncodingBase64Zstd}
-
-func parseGetBlockRequest(raw *json.RawMessage) (*GetBlockRequest, error) {
-	out := &GetBlockRequest{Slot: verifC02Req.slot}
-	commitment := rpc.CommitmentFinalized
-	out.Options.Commitment = &commitment
-	enc := verifC02Req.encoding
-	out.Options.Encoding = &enc
-	details := "full"
-	out.Options.TransactionDetails = &details
-	rewards := verifC02Req.rewards
-	out.Options.Rewards = &rewards
-	return out, nil
-}
-
-func parseGetTransactionRequest(raw *json.RawMessage) (*GetTransactionRequest, error) {
-	out := &GetTransactionRequest{Signature: verifC02Req.sig}
-	enc := verifC02Req.encoding
-	out.Options.Encoding = &enc
-	return out, nil
-}
 
 // --- decoder / encoder tokens --------------------------------------------------------------------
 
@@ -129,26 +94,18 @@ func verifC02SameTx(txAny, metaAny any, sigs []solana.Signature, t *verifC02Tx, 
 	return same & verifC02B(bytes.Equal(m.b, t.meta.want))
 }
 
-// --- reply recorders -------------------------------------------------------------------------------
-
-var verifC02Replies []any
-
-func (c *requestContext) Reply(ctx context.Context, id jsonrpc2.ID, result interface{}, remapCallback func(map[string]any) map[string]any) error {
-	verifC02Replies = append(verifC02Replies, result)
-	return nil
-}
-
-func (c *requestContext) ReplyRaw(ctx context.Context, id jsonrpc2.ID, result interface{}) error {
-	verifC02Replies = append(verifC02Replies, result)
-	return nil
-}
-
-func c02Model_headerSet(h *fasthttp.ResponseHeader, key, value string) {}
-
 // --- C02.jsonBlock ----------------------------------------------------------------------------------
 
 func VerifC02JsonBlock() {
 	sc := verifC02BlockScene(false)
+	if verifC02JsonBlockOracle(sc) {
+		verifReach("end")
+	}
+}
+
+// verifC02JsonBlockOracle drives the real JSON-RPC dispatch (handleRequest -> handleGetBlock) for the
+// scene's block and checks the recorded answer against the archive.
+func verifC02JsonBlockOracle(sc *verifC02Scene) bool {
 	b := sc.b
 	sameEpochParent := b.slot != 0 && b.parent >= sc.a.lo()
 	verifKnownFinding("C02-S13-prevhash-parent-slot0", sameEpochParent && b.parent == 0 && b.slot > 1)
@@ -162,19 +119,19 @@ func VerifC02JsonBlock() {
 	raw := json.RawMessage("[opaque]")
 	req := &jsonrpc2.Request{Method: "getBlock", ID: jsonrpc2.ID{Num: 1}, Params: &raw}
 	conn := &requestContext{ctx: &fasthttp.RequestCtx{}}
-	errResp, err := sc.multi.handleGetBlock(context.Background(), conn, req)
+	errResp, err := sc.multi.handleRequest(context.Background(), conn, req)
 	verifAssert(errResp == nil && err == nil, "C02.jsonBlock: archived block is answered with an error")
 	if errResp != nil || err != nil {
-		return
+		return false
 	}
 	verifAssert(len(verifC02Replies) == 1, "C02.jsonBlock: not exactly one reply")
 	if len(verifC02Replies) != 1 {
-		return
+		return false
 	}
 	resp, ok := verifC02Replies[0].(GetBlockResponse)
 	verifAssert(ok, "C02.jsonBlock: reply is not a GetBlockResponse")
 	if !ok {
-		return
+		return false
 	}
 
 	verifAssert(resp.ParentSlot == b.parent, "C02.jsonBlock: wrong parent slot")
@@ -199,7 +156,7 @@ func VerifC02JsonBlock() {
 
 	verifAssert(len(resp.Transactions) == len(sc.txs), "C02.jsonBlock: number of transactions differs from the archive")
 	if len(resp.Transactions) != len(sc.txs) {
-		return
+		return false
 	}
 	enc := verifC02Req.encoding
 	for i, r := range resp.Transactions {
@@ -217,7 +174,7 @@ func VerifC02JsonBlock() {
 		}
 		verifAssert(r.Version == "legacy", "C02.jsonBlock: version of a legacy transaction")
 	}
-	verifReach("end")
+	return true
 }
 
 // C02.jsonBlockFetchFail — as C02.grpcBlockFetchFail for handleGetBlock.
@@ -235,7 +192,7 @@ func VerifC02JsonBlockFetchFail() {
 	raw := json.RawMessage("[opaque]")
 	req := &jsonrpc2.Request{Method: "getBlock", ID: jsonrpc2.ID{Num: 1}, Params: &raw}
 	conn := &requestContext{ctx: &fasthttp.RequestCtx{}}
-	errResp, err := sc.multi.handleGetBlock(context.Background(), conn, req)
+	errResp, err := sc.multi.handleRequest(context.Background(), conn, req)
 	verifAssert(errResp != nil && err != nil && len(verifC02Replies) == 0, "C02.jsonBlockFetchFail: a block whose transaction could not be read is answered without an error")
 	verifReach("end")
 }
